@@ -210,6 +210,34 @@ func RoundTrip(p *profile.Profile, origin string) (string, bool) {
 	if err := mon.Valid(p1); err != nil {
 		return fmt.Sprintf("%s: re-parsed profile invalid: %v", origin, err), false
 	}
+	// the same message in another valid wire form (packed lists delivered in several chunks and as
+	// single elements, as other producers emit them) is the same profile, and its re-serialization
+	// is the canonical one
+	if b1.Len() < 1<<16 {
+		h := uint64(b1.Len())*0x9e3779b97f4a7c15 + 1
+		alt, err := wire.Rechunk(b1.Bytes(), func(n int) int {
+			h ^= h << 13
+			h ^= h >> 7
+			h ^= h << 17
+			return int(h % uint64(n))
+		})
+		if err == nil && !bytes.Equal(alt, b1.Bytes()) {
+			pa, err := profile.ParseUncompressed(alt)
+			if err != nil {
+				return fmt.Sprintf("%s: the same message with its packed lists split into several chunks is rejected: %v", origin, err), false
+			}
+			if va := wire.ViewProfile(pa); va != want {
+				return fmt.Sprintf("%s: the same message with its packed lists split into several chunks parses to a different profile\n--- want\n%s--- got\n%s", origin, want, va), false
+			}
+			var ba bytes.Buffer
+			pa.WriteUncompressed(&ba)
+			var bc bytes.Buffer
+			p1.WriteUncompressed(&bc)
+			if !bytes.Equal(ba.Bytes(), bc.Bytes()) {
+				return fmt.Sprintf("%s: re-serializing the chunked form does not give the canonical bytes", origin), false
+			}
+		}
+	}
 	// byte fixpoint from the first re-serialization on
 	var b2, b3 bytes.Buffer
 	p1.WriteUncompressed(&b2)
